@@ -15,16 +15,16 @@ var (
 	InvalidEmails = []string{"tom", "tom@", "@cats.com", "a b@c d", "tom@@cats"}
 	ValidURIs     = []string{"http://tom.cats.com", "https://example.org/a/b?c=d", "ftp://host/file.txt"}
 	InvalidURIs   = []string{"tom.cats.com", "not a uri", "http//x"}
-	ValidUUIDs = []string{"550e8400-e29b-41d4-a716-446655440000", "00000000-0000-0000-0000-000000000000", "FFFFFFFF-ffff-FFFF-ffff-FFFFFFFFFFFF",
+	ValidUUIDs    = []string{"550e8400-e29b-41d4-a716-446655440000", "00000000-0000-0000-0000-000000000000", "FFFFFFFF-ffff-FFFF-ffff-FFFFFFFFFFFF",
 		"urn:uuid:550e8400-e29b-41d4-a716-446655440000", "URN:UUID:550E8400-E29B-41D4-A716-446655440000", "Urn:Uuid:550e8400-e29b-41d4-a716-446655440000", "urn:UUID:550e8400-e29b-41d4-a716-446655440000",
 		"{550e8400-e29b-41d4-a716-446655440000}", "550e8400e29b41d4a716446655440000", "550E8400E29B41D4A716446655440000"}
 	InvalidUUIDs = []string{"550e8400-e29b-41d4-a716-44665544000", "550e8400-e29b-41d4-a716-44665544000g", "550e8400e29b41d4a716-446655440000x", "abc",
 		"urx:uuid:550e8400-e29b-41d4-a716-446655440000", "urn-uuid:550e8400-e29b-41d4-a716-446655440000", "urn:uuid:550e8400-e29b-41d4-a716-44665544000g", "{550e8400-e29b-41d4-a716-446655440000]",
 		"(550e8400-e29b-41d4-a716-446655440000)", "550e8400e29b41d4a71644665544000g", "550e8400-e29b-41d4-a716_446655440000"}
-	ValidDates    = []string{"2006-01-02", "2024-02-29", "1999-12-31"}
-	InvalidDates  = []string{"2006-13-02", "2023-02-29", "2006-1-2", "06-01-02", "2006/01/02", "2006-01-32"}
-	ValidDTs      = []string{"2021-01-02T07:23:12+03:00", "2006-01-02T15:04:05Z", "1999-12-31T23:59:59-11:00"}
-	InvalidDTs    = []string{"2021-01-02 07:23:12", "2021-01-02T25:23:12+03:00", "2021-13-02T07:23:12Z", "2021-01-02T07:23:12", "yesterday"}
+	ValidDates   = []string{"2006-01-02", "2024-02-29", "1999-12-31"}
+	InvalidDates = []string{"2006-13-02", "2023-02-29", "2006-1-2", "06-01-02", "2006/01/02", "2006-01-32"}
+	ValidDTs     = []string{"2021-01-02T07:23:12+03:00", "2006-01-02T15:04:05Z", "1999-12-31T23:59:59-11:00"}
+	InvalidDTs   = []string{"2021-01-02 07:23:12", "2021-01-02T25:23:12+03:00", "2021-13-02T07:23:12Z", "2021-01-02T07:23:12", "yesterday"}
 )
 
 var words = []string{"", "a", "ab", "abc", "abcd", "hello", "Tom", "x-1", "A1b2C3", "zzzzzzzz", "0123456789"}
